@@ -339,7 +339,7 @@ def c18(tier='quick', seed=0):
         with warnings.catch_warnings():
             warnings.simplefilter('ignore')
             dep = policy.DeprecatedRule('svc:old', 'role:legacy', deprecated_reason='r', deprecated_since='s')
-            kind = rng.choice(['plain', 'renamed', 'split', 'changed'])
+            kind = rng.choice(['plain', 'renamed', 'split', 'changed', 'split_keep'])
             defaults = [policy.DocumentedRuleDefault('svc:plain', 'role:a', 'plain', [{'path': '/', 'method': 'GET'}]),
                         policy.RuleDefault('helper', 'role:c')]
             if kind == 'renamed':
@@ -347,6 +347,11 @@ def c18(tier='quick', seed=0):
             elif kind == 'split':
                 defaults.append(policy.RuleDefault('svc:new1', 'role:b', deprecated_rule=dep))
                 defaults.append(policy.RuleDefault('svc:new2', 'role:c', deprecated_rule=dep))
+            elif kind == 'split_keep':
+                # the deprecated name is split; one successor keeps the old name (changed default), one is new
+                depk = policy.DeprecatedRule('svc:keep', 'role:legacy', deprecated_reason='r', deprecated_since='s')
+                defaults.append(policy.RuleDefault('svc:keep', 'role:b', deprecated_rule=depk))
+                defaults.append(policy.RuleDefault('svc:keep_detail', 'role:c', deprecated_rule=depk))
             elif kind == 'changed':
                 defaults.append(policy.RuleDefault('svc:same', 'role:b', deprecated_rule=policy.DeprecatedRule(
                     'svc:same', 'role:legacy', deprecated_reason='r', deprecated_since='s')))
@@ -360,6 +365,8 @@ def c18(tier='quick', seed=0):
             file_map[rng.choice([n for n in new_names if n.startswith('svc:new')])] = rng.choice(values)
         if kind == 'changed' and rng.random() < 0.7:
             file_map['svc:same'] = rng.choice(values)
+        if kind == 'split_keep' and rng.random() < 0.8:
+            file_map['svc:keep'] = rng.choice(values)
         if rng.random() < 0.4:
             file_map['unknown:x'] = rng.choice(values)
         names = sorted(set(new_names) | {n for n in file_map if n != 'svc:old'})
@@ -405,7 +412,7 @@ def c18(tier='quick', seed=0):
         finally:
             sb.close()
         # ---- generator (merged policy) and list-redundant, on files without deprecated-name overrides
-        if 'svc:old' not in file_map:
+        if 'svc:old' not in file_map and not (kind == 'split_keep' and 'svc:keep' in file_map):
             sb = Sandbox()
             try:
                 sb.write('policy.yaml', file_map)
